@@ -91,5 +91,54 @@ theorem MapDataSlab_Get_eq_model_closed {r : Nat} (hr : cfg.L = r + 1) (D' : Dig
   MapDataSlab_Get_eq_model_closed_of_guard cfg k retr hL hT hTe hcl s x c
     (mcl_QG_of_inv k retr T (r + 1) D' hkd (hr ▸ hL) c (r + 1) 0 [] s.elems hinv.elems_inv hfit (fun _ => hret))
 
+/-! ### `Remove` and `Set`: closed, but the guard is not yet derived from `ElemsInv`
+
+  FULL statements (not proved in this form):
+    elements_Remove_eq_model_closed : ElemsInv T cfg.L D r level path e → (range conditions: sizes / counts < 2^32,
+      digests / levels < 2^64, fewer than 2^62 entries, the storage returns the first-level group slabs) →
+      clElements_Remove cfg retr r e c k (u64 level) (u64 (k.dig level)) (.key k) =
+        mei_rGRemove e c ((MElems.ops r).remove cfg e level k c)
+    elements_Set_eq_model_closed : the same for `clElements_Set` / `(MElems.ops r).set`.
+  PROVED: the same equations under the recursive guards `mcl_QR` / `mcl_QS`, which are predicates on MODEL values and on
+  what the storage returns only (well-formed tables, `uint` ranges of the argument AND of the model's results at every
+  level on the search path, `digestSize + size(el) ≤ size` bookkeeping, the model's `newWith` succeeds on a collision,
+  owner address of the group slabs) — no hypothesis about generated code or an environment is left.  MISSING: the lemma
+  `ElemsInv → ranges → mcl_QR / mcl_QS` (the analogue of `mcl_QG_of_inv`; it needs that the model's `set` / `remove`
+  preserve the size bookkeeping of `ElemsInv`, `Map/EffectsElems.lean`). -/
+
+theorem elements_Remove_eq_model_closed_partial (hL : cfg.L < 2^64) (hT : cfg.T < 2^32) (hTe : maxInlineMapElem cfg.T < 2^32)
+    (hcl : cfg.climit < 2^32) (r : Nat) (e : MElems r) (level : Nat) (c : Ctx) (hl : level < 2^64)
+    (hQ : mcl_QR cfg k retr r e level c) :
+    clElements_Remove cfg retr r e c k (u64 level) (u64 (k.dig level)) (.key k) =
+      mei_rGRemove e c ((MElems.ops r).remove cfg e level k c) :=
+  elements_Remove_eq_model_closed_of_guard cfg k retr hL hT hTe hcl r e level c hl hQ
+
+theorem elements_Set_eq_model_closed_partial (v : Elem) (hL : cfg.L < 2^64) (hT : cfg.T < 2^32)
+    (hTe : maxInlineMapElem cfg.T < 2^32) (hcl : cfg.climit < 2^32) (r : Nat) (e : MElems r) (level : Nat) (c : Ctx)
+    (hl : level < 2^64) (hQ : mcl_QS cfg k v retr r e level c) :
+    clElements_Set cfg retr r e c cfg.addr () k (u64 level) (u64 (k.dig level)) (.key k) (.val v) =
+      mei_rGSet e c ((MElems.ops r).set cfg e level k v c) :=
+  elements_Set_eq_model_closed_of_guard cfg k v retr hL hT hTe hcl r e level c hl hQ
+
+/-- `MapDataSlab.Set` under the closed environment = `MDataSlab.set` (guard `mcl_QS` instead of `MDataInv` + ranges) -/
+theorem MapDataSlab_Set_eq_model_closed_partial (v : Elem) (hL : cfg.L < 2^64) (hT : cfg.T < 2^32)
+    (hTe : maxInlineMapElem cfg.T < 2^32) (hcl : cfg.climit < 2^32) {r : Nat} (s : MDataSlab r) (x : Option X)
+    (hx : x.isSome = s.root) (c : Ctx) (ha : s.hdr.id.addr = cfg.addr) (hQ : mcl_QS cfg k v retr (r + 1) s.elems 0 c) :
+    Gen.TransElem.MapDataSlab_Set (clEnvB cfg retr (r + 1)) (mei_cData s x) c () k (u64 0) (u64 (k.dig 0)) (.key k) (.val v) =
+      match MDataSlab.set cfg s k v c with
+      | .ok (ks, old, s', c') => some (some (.key ks), old.map .val, none, mei_cData s' x, c')
+      | .error err => some (none, none, some err, mei_cData s x, c) :=
+  MapDataSlab_Set_eq_model_closed_of_guard cfg k v retr hL hT hTe hcl s x hx c ha hQ
+
+/-- `MapDataSlab.Remove` under the closed environment = `MDataSlab.remove` (guard `mcl_QR` instead of `MDataInv` + ranges) -/
+theorem MapDataSlab_Remove_eq_model_closed_partial (hL : cfg.L < 2^64) (hT : cfg.T < 2^32)
+    (hTe : maxInlineMapElem cfg.T < 2^32) (hcl : cfg.climit < 2^32) {r : Nat} (s : MDataSlab r) (x : Option X)
+    (hx : x.isSome = s.root) (c : Ctx) (hQ : mcl_QR cfg k retr (r + 1) s.elems 0 c) :
+    Gen.TransElem.MapDataSlab_Remove (clEnvB cfg retr (r + 1)) (mei_cData s x) c k (u64 0) (u64 (k.dig 0)) (.key k) =
+      match MDataSlab.remove cfg s k c with
+      | .ok (rk, rv, s', c') => some (some (.key rk), some (.val rv), none, mei_cData s' x, c')
+      | .error err => some (none, none, some err, mei_cData s x, c) :=
+  MapDataSlab_Remove_eq_model_closed_of_guard cfg k retr hL hT hTe hcl s x hx c hQ
+
 end final
 end Atree.TransEq
